@@ -1,0 +1,5 @@
+//go:build !verif
+
+package keeper
+
+func verifObserveRefund(_, _, _, _ uint64) {}
